@@ -349,6 +349,7 @@ func (e *env) rounds(seed uint64) {
 		e.r.InfraError = "connect to scripted server: " + err.Error()
 		return
 	}
+	xsubs.LoopStarted(c.VerifChanLens)
 	defer c.Close(context.Background())
 	notif := make(chan *opcua.PublishNotificationData, 256)
 	sub, err := c.Subscribe(ctx, &opcua.SubscriptionParameters{Interval: 20 * time.Millisecond, MaxKeepAliveCount: 5, LifetimeCount: 100}, notif)
@@ -653,6 +654,7 @@ func (e *env) scenario(kind string, nsubs, nitems int) *scenResult {
 		res.infra = "connect: " + err.Error()
 		return res
 	}
+	xsubs.LoopStarted(c.VerifChanLens)
 	defer c.Close(context.Background())
 	var subs []*subRec
 	for k := 0; k < nsubs; k++ {
@@ -923,6 +925,23 @@ func main() {
 		e.runScenario(s.kind, s.a, s.b)
 		if r.InfraError != "" {
 			break
+		}
+		// the id collision of C26.recreate-failure-ignored depends on the order in
+		// which Go iterates over c.subs (5 of 6 orders with three subscriptions):
+		// run its witness scenario again until the colliding order came up
+		if s.kind == "restart" && s.a == 3 {
+			for i := 0; i < 3 && r.InfraError == ""; i++ {
+				confirmed := false
+				for _, f := range r.FindingsConfirmed {
+					if f == sigRecreate {
+						confirmed = true
+					}
+				}
+				if confirmed {
+					break
+				}
+				e.runScenario(s.kind, s.a, s.b)
+			}
 		}
 	}
 	for _, b := range []string{"acks:length-mismatch", "acks:matched", "acks:status-o", "acks:status-i", "acks:status-u", "acks:status-x",
